@@ -75,11 +75,11 @@ def one_multipart_decision(ctx):
                         neg = isinstance(u, ast.UnaryOp) and isinstance(u.op, ast.Not)
                         iff = u._parent if neg else u
                         if isinstance(iff, ast.If) and (iff.test is u or iff.test is c):
-                            tb, fb = _kind(iff.body, cf), _kind(iff.orelse, cf)
+                            tb, fb = _kind(iff.body, cf), _kind(q.else_branch(iff), cf)
                             want = ('single', 'multi') if neg else ('multi', 'single')
                             ctx.ob(cf, f'if {norm(iff.test)}: {tb} else: {fb}', (tb, fb) == want, 'the branches of the multipart decision are swapped')
             elif isinstance(par, ast.If) and par.test is top:
-                tb, fb = _kind(par.body, f), _kind(par.orelse, f) if par.orelse else None
+                tb, fb = _kind(par.body, f), _kind(q.else_branch(par), f) if q.else_branch(par) else None
                 if isinstance(op, ast.Lt):
                     ok = tb == 'single' and (fb == 'multi')
                 elif isinstance(op, ast.GtE):
